@@ -3,6 +3,8 @@
 package storage
 
 import (
+	"context"
+
 	"github.com/marekgalovic/anndb/index"
 
 	"github.com/marekgalovic/anndb/verifrt"
@@ -90,6 +92,20 @@ func VerifC04() {
 		verifrt.Assert(C.process(data) == nil, "replica-apply-never-fails")
 	}
 	verifSameContents(A, C, nIds, "snapshot+replay")
+	// a search on the restored replica returns live items with their current metadata
+	query := make([]float32, dim)
+	for d := range query {
+		query[d] = verifrt.F32Grid("query", 0, grid)
+	}
+	res, serr := C.search(context.Background(), query, 3)
+	verifrt.Assert(serr == nil, "search-succeeds")
+	for _, item := range res {
+		i := verifItemIndex(item.Id)
+		verifrt.Assert(i >= 0 && m.present[i], "returned-item-is-live")
+		if i >= 0 && m.present[i] {
+			verifrt.Assert(sameMeta(item.Metadata, m.meta[i]), "metadata-is-current")
+		}
+	}
 	_ = index.ItemNotFoundError
 	verifrt.Reach("end")
 }
